@@ -893,9 +893,9 @@ def handlePath (cmd : String) (args : List String) : String :=
 /-! #### in-flight marker naming -/
 def handleMarker (cmd : String) (args : List String) : String :=
   match cmd, args with
-  | "marker.name", [p, d] =>
+  | "marker.name", [p, d, pre] =>
       match decStr p, decStr d with
-      | some path, some dig => encStr (DSV.Marker.markerName (fun _ => dig) path)
+      | some path, some dig => encStr (DSV.Marker.markerNameOf (fun _ => dig) (pre == "1") path)
       | _, _ => "bad-op"
   | "marker.register", ps =>
       -- args: <path>:<digest of its table-relative form> … ; reply: the paths that get a marker of their own, in order
@@ -906,7 +906,7 @@ def handleMarker (cmd : String) (args : List String) : String :=
       | some pairs =>
           let dig : List Char → List Char := fun r =>
             match pairs.find? (fun pd => DSV.Marker.lstripSlash pd.1 == r) with | some pd => pd.2 | none => []
-          let r := DSV.Marker.register (DSV.Marker.markerName dig) [] (pairs.map (·.1))
+          let r := DSV.Marker.register (DSV.Marker.markerNamePrebuilt dig) [] (pairs.map (·.1))
           String.intercalate "," (r.2.map encStr)
       | none => "bad-op"
   | _, _ => "bad-op"
